@@ -186,6 +186,9 @@ static inline void vh_case_begin(uint64_t idx)
   fflush(stdout);
 }
 
+/* optional suffix for every violation key (fault-enumeration engines name the injected fault's site) */
+static char vh_key_suffix[160];
+
 static inline void vh_violation(const char *key, const char *fmt, ...)
 {
   va_list ap;
@@ -200,7 +203,7 @@ static inline void vh_violation(const char *key, const char *fmt, ...)
     }
   }
   vh_case_viol++;
-  printf("V %llu %s | %s\n", (unsigned long long)vh_cur_case, key, buf);
+  printf("V %llu %s%s | %s\n", (unsigned long long)vh_cur_case, key, vh_key_suffix, buf);
   fflush(stdout);
 }
 
